@@ -394,6 +394,14 @@ Section NewCounter.
       assert (Hle : start < len bs + 16384).
       { unfold place_lim in P3. destruct (N.eqb_spec limit 0); lia. }
       pose proof (name_word_ok _ Hname) as (W1 & W2).
+      (* no uint32 overflow below the cap *)
+      assert (Hnowrap : (start <? limit) || (e <? start) || (round_u32 e c_pageSize <? e) = false).
+      { rewrite round_u32_page. unfold u32. rewrite (N.mod_small (e + 16383)) by lia.
+        unfold place_lim in P2. apply orb_false_iff. split; [apply orb_false_iff; split|]; apply N.ltb_ge.
+        - destruct (N.eqb_spec limit 0); lia.
+        - lia.
+        - divlia. }
+      rewrite Hnowrap.
       (* the file after growing *)
       set (k := round_u32 e c_pageSize - len bs).
       assert (Hgrow : (if len bs <? e then extend meta bs e else Some bs) = Some (bs ++ zeros (if len bs <? e then k else 0))).
